@@ -385,3 +385,50 @@ def c20(tier):
                      "relative order of broker-independent responses and diagnostics is not constrained (benign race, modelled)"]
     c.exhaustive = True
     c.finish()
+
+
+# ---------------------------------------------------------------------------
+# C08  the server's copy of a document equals the client's, positions included
+
+def c08(tier):
+    c = Check("C08", tier)
+    c.rule = ("TLC explores all texts up to the length bound over {1-unit char, 2-byte, 3-byte, astral, CR, LF} with ALL ranged changes over "
+              "the position grid (valid and overshooting UTF-16 positions) as transitions, checking PosRoundTrip/OffsetMonotone/"
+              "FullTextChangeReplaces, and prints every text with its position table; the harness replays every change of that graph "
+              "(count must equal TLC's) into the real server (didOpen, didChange, $/verif/text) and composes batches and full-text changes "
+              "from the same tables; simulated sessions of 20 notifications are replayed and their hook traces validated by TraceServer "
+              "(server text = client text after every change); prepareRename ranges are converted and sent back (round trip).")
+    vlib.build_harness()
+    exe = vlib.build_server(False)
+    exe_v = vlib.build_server(True)
+    cfgs = ["MC_LspDocument_quick"] if tier == "quick" else ["MC_LspDocument_quick", "MC_LspDocument_ins2", "MC_LspDocument_len4"]
+    for cfg in cfgs:
+        res = vlib.tlc("MC_LspDocument", cfg + ".cfg", "c08_" + cfg, timeout=6000, heap="16g")
+        vlib.require_coverage(res, ["Grow", "Change"])
+        c.add_tlc(res, cfg)
+        r = _srv("docsync", res["out"], "c08_" + cfg, exe_v, ["batches=%d" % (40 if tier == "quick" else 200)], timeout=7200)
+        got = r["counters"].get("transitions", 0)
+        want = res["coverage"]["Change"][1]
+        if got != want:
+            raise ToolError("binding: harness enumerated %d changes, TLC %d" % (got, want))
+        c.add_harness(r, cfg + " (all changes + batches)", traces=got + r["counters"].get("batches", 0))
+        os.remove(res["out"])
+    procs, num = (8, 30) if tier == "quick" else (16, 400)
+    res = vlib.tlc_sim_multi("MC_LspDocSession", "Sim_LspDocSession.cfg", "c08_sessions", procs, num, 22)
+    c.add_tlc(res, "Sim_LspDocSession")
+    trace = os.path.join(vlib.OUT, "c08_trace.ndjson")
+    r = _srv("docsession", res["out"], "c08_sessions", exe_v, ["trace_out=" + trace])
+    c.add_harness(r, "sessions of 20 notifications")
+    validate_server_trace(c, trace, "c08", True, "TraceServer(sync sessions)")
+    os.remove(res["out"])
+    os.remove(trace)
+    procs, num = (4, 40) if tier == "quick" else (16, 300)
+    res = vlib.tlc_sim_multi("MC_LexerChain", "Sim_LspRoundtrip.cfg", "c08_roundtrip", procs, num, 40)
+    c.add_tlc(res, "Sim_LspRoundtrip (texts with tokens)")
+    r = _srv("roundtrip", res["out"], "c08_roundtrip", exe)
+    c.add_harness(r, "prepareRename range round trip")
+    os.remove(res["out"])
+    c.assumptions = ["positions inside a surrogate pair are not generated (not positions of the text)",
+                     "the independent position model of the harness is checked against the specification's table on every grid position"]
+    c.exhaustive = True
+    c.finish()
